@@ -27,9 +27,17 @@ func Bubble(t *testing.T, fn func()) (deadlock string, stacks string) {
 			deadlock = msg
 			buf := make([]byte, 4<<20)
 			buf = buf[:runtime.Stack(buf, true)]
+			// keep the goroutines of THIS bubble (the highest bubble number in the dump; older leaked bubbles may linger)
 			var keep []string
-			for _, g := range strings.Split(string(buf), "\n\n") {
-				if strings.Contains(g, "synctest bubble") || strings.Contains(g, "bubble ") {
+			cur := -1
+			gs := strings.Split(string(buf), "\n\n")
+			for _, g := range gs {
+				if n := bubbleID(g); n > cur {
+					cur = n
+				}
+			}
+			for _, g := range gs {
+				if bubbleID(g) == cur && cur >= 0 {
 					keep = append(keep, g)
 				}
 			}
@@ -74,4 +82,20 @@ func RueidisFrames(stacks string) []string {
 		}
 	}
 	return out
+}
+
+func bubbleID(g string) int {
+	head, _, _ := strings.Cut(g, "\n")
+	i := strings.Index(head, "synctest bubble ")
+	if i < 0 {
+		return -1
+	}
+	n := 0
+	for _, c := range head[i+len("synctest bubble "):] {
+		if c < '0' || c > '9' {
+			break
+		}
+		n = n*10 + int(c-'0')
+	}
+	return n
 }
